@@ -122,14 +122,59 @@ def check(cx):
           ('index', MASK, ('adt', 'std::ops::RangeFrom', 'RangeFrom', (('start', find_at),)))]),
         ('nick -> nick!*@*', And(Not(excl), Not(at_any)), [MASK, ('lit', '!*@*')]),
     ]
+    FIND = 'core::str::<impl str>::find'
+
+    def norm_atom(a):
+        # `s.contains(c)` says the same as `s.find(c).is_some()`
+        if a[0] == 'is' and a[2] == 'Some' and a[1][0] == 'get' and root_of(a[1][1]) == MASK and a[1][2][0] == 'lit':
+            return Atom(('is', ('call', FIND, a[1][1], a[1][2]), 'Some'))
+        return Atom(a)
+
+    def norm_piece(t):
+        # the two halves of split_at(at) are the slices ..at and at..
+        if isinstance(t, tuple) and t and t[0] == 'field' and t[2] in ('0', '1') and isinstance(t[1], tuple) and t[1][:1] == ('call',) \
+                and t[1][1].split('::')[-1] == 'split_at' and len(t[1]) >= 4:
+            base, at = t[1][2], t[1][3]
+            if t[2] == '0':
+                return ('index', base, ('adt', 'std::ops::RangeTo', 'RangeTo', (('end', at),)))
+            return ('index', base, ('adt', 'std::ops::RangeFrom', 'RangeFrom', (('start', at),)))
+        return t
+
+    def pieces_of(leaf, cond):
+        """the string a result leaf denotes, as a list of concatenated pieces"""
+        if isinstance(leaf, tuple) and leaf and leaf[0] == 'local':
+            return [norm_piece(e.data['args'][0]) for e in apps if e.data['local'] == leaf and sat(And(rename(e.pc, norm_atom), cond)) is not None
+                    and entails(cond, rename(e.pc, norm_atom))[0]]
+        if isinstance(leaf, tuple) and leaf and leaf[0] == 'fmt':
+            out = []
+            for pc_ in leaf[1]:
+                if isinstance(pc_, str):
+                    if pc_:
+                        out.append(('lit', pc_))
+                else:
+                    out.append(norm_piece(leaf[2 + pc_[1]]))
+            return out
+        return [norm_piece(leaf)]
+
+    def merge_lits(ps):
+        out = []
+        for x in ps:
+            if out and x[0] == 'lit' and out[-1][0] == 'lit' and isinstance(x[1], str) and isinstance(out[-1][1], str):
+                out[-1] = ('lit', out[-1][1] + x[1])
+            else:
+                out.append(x)
+        return out
+    rv = wn.retval
     for desc, cond, want in cases:
-        got = seq_under(cond)
         r3.instance('normalize_sourcemask: ' + desc)
-        if got != want:
+        gots = []
+        for c_, leaf in term_cases(rv) if rv is not None else []:
+            c_ = rename(c_, norm_atom)
+            if sat(And(c_, cond)) is not None:
+                gots.append(merge_lits(pieces_of(leaf, And(cond, c_))))
+        if not gots or any(g != merge_lits(want) for g in gots):
             r3.violation('normalize_sourcemask|case|' + desc.split(' ')[0], 'normalisation case "%s" builds %s' % (
-                desc, ' + '.join(show_term(x) for x in got)), loc=fnorm)
-    if wn.retval is None or wn.retval[0] != 'local':
-        r3.violation('normalize_sourcemask|result', 'the normalised string is not the accumulated result', loc=fnorm)
+                desc, ' | '.join(' + '.join(show_term(x) for x in g) for g in gots) or 'nothing'), loc=fnorm)
     # use sites in MODE: stored, removed, announced and ban_info-keyed values are the normalised argument
     fc = cx.fn('process_mode_channel')
     CH = P('chanobj')
